@@ -2,7 +2,7 @@
    Only statements: each theorem is closed by [exact lemma], pinned by [Check], followed by
    [Print Assumptions]. *)
 From Coq Require Import List NArith Permutation.
-From EZK Require Import Model.Forms8 Proofs.Forms8 Gen.Tables Lib.Bytes Model.C10 Proofs.C10.
+From EZK Require Import Model.Forms10 Proofs.Forms10 Model.Forms8 Proofs.Forms8 Gen.Tables Lib.Bytes Model.C10 Proofs.C10.
 Import ListNotations.
 Open Scope N_scope.
 
@@ -134,3 +134,14 @@ Proof. exact not_sequenced_when_empty. Qed.
 Theorem C10_next_after_release : next_cseq_from_last_released = true ->
   forall arriving k, next_after_release arriving k = arriving + N.of_nat k + 1.
 Proof. exact next_here. Qed.
+
+(* "requests for other dialogs are not intercepted": the parts of a dialog key are compared byte for byte; folded to one case, two
+   different tags would name one dialog *)
+Theorem C10_key_bytewise_guard : dialog_key_bytewise = true.
+Proof. reflexivity. Qed.
+
+Theorem C10_key_parts_equal_iff_identical : dialog_key_bytewise = true -> forall a b, key_part_eq a b = true <-> a = b.
+Proof. exact key_part_here. Qed.
+
+Theorem C10_case_folded_key_refuted : key_part_eq_form false [Byte.x41; Byte.x62] [Byte.x61; Byte.x42] = true.
+Proof. exact key_part_folded_merges. Qed.
